@@ -54,6 +54,7 @@ def cases(draw, tier):
     level = draw(K.level_strategy)
     want_int64 = draw(st.booleans())
     n_train = draw(st.sampled_from([None, None, "shorter", "longer", "same_buffer"]))
+    history = draw(st.sampled_from(K.HISTORIES))
     if bulk == "table":
         m = (n + 1) ** 3
         flat = draw(st.lists(st.integers(-1, 3), min_size=m, max_size=m))
@@ -66,7 +67,7 @@ def cases(draw, tier):
     return {"params": {"change_score": sc, "bandwidth": bw, "threshold_scale": scale, "level": level,
                        "min_detection_interval": mdi}, "X": X,
             "as_int64": integral and want_int64,
-            "n_train": n_train}
+            "n_train": n_train, "history": history}
 
 
 def model_scores(params, X):
@@ -91,11 +92,17 @@ def check(case):
     Xtrain = training_data(Xin, case.get("n_train"), 2 * b, params["change_score"])
     if case.get("n_train") == "same_buffer":
         Xtrain = (Xtrain.astype(Xin.dtype) if Xin.dtype.kind == "i" else Xtrain).copy()
+    history = case.get("history") if case.get("n_train") != "same_buffer" else None
     with sut("MovingWindow.fit/transform_scores/predict"):
-        det = K.build(K.detector_spec("MovingWindow", params)).fit(Xtrain)
+        det = K.build(K.detector_spec("MovingWindow", params))
+        if history == "scorer_prefit_wide" and not K.prefit_scorer_wide(det, Xtrain):
+            history = None
+        det.fit(Xtrain)
         if case.get("n_train") == "same_buffer":
             Xtrain[:] = Xin  # the buffer the detector was fitted on is refilled in place with the new data
             Xin = Xtrain
+        if history in ("used_buffer_array", "used_buffer_frame"):
+            Xin = K.used_buffer(det, Xin, history.endswith("frame"))
         scores = det.transform_scores(Xin)
         y = det.predict(Xin)
         thr = float(det.threshold_)
@@ -150,6 +157,8 @@ def check(case):
         classes.append("int64_input")
     if len(Xtrain) != n:
         classes.append("fitted_on_other_length")
+    if history:
+        classes.append(f"history={history}")
     if case.get("n_train") == "same_buffer":
         classes.append("buffer_refilled_after_fit")
     if cpts:
@@ -219,6 +228,36 @@ def check_reversal(case):
     return {"nontrivial": bool(c1), "classes": classes}
 
 
+# ------------------------------------------------------------------ very long series
+
+
+def long_cells(tier):
+    """Series with 2^15..2^17 scores per column and in total (lengths around powers of two, where implementations
+    that work block-wise or with narrow index types change behaviour). The data are a deterministic function of the
+    cell: unit noise from numpy's PCG64 seeded with the cell's `seed` (stored in the case, so the case replays
+    exactly; 10^5 floats are not drawn through Hypothesis) plus level shifts placed at and next to multiples of 2^k / p."""
+    shapes = [(65536 + 45, 1), (70001, 1), (32768 + 41, 2), (21846 + 40, 3), (16384 + 47, 4)]
+    if tier != "quick":
+        shapes += [(131072 + 43, 1), (65536 + 45, 2), (43700, 3), (100003, 1), (26300, 5)]
+    for i, (n, p) in enumerate(shapes):
+        for b, sc in ((20, {"cls": "CUSUM"}), (3, {"cls": "L2Cost"})) if tier != "quick" or i % 2 == 0 else ((7, None),):
+            yield {"n": n, "p": p, "seed": 1000 + i, "params": {"change_score": sc, "bandwidth": b, "threshold_scale": 1.0,
+                                                                  "level": 0.01, "min_detection_interval": 1}}
+
+
+def check_long(case):
+    n, p, b = case["n"], case["p"], case["params"]["bandwidth"]
+    rng = np.random.Generator(np.random.PCG64(case["seed"]))
+    X = rng.uniform(-1.0, 1.0, size=(n, p))
+    block = 65536 // p
+    for k, pos in enumerate(sorted({block // 2, block - 1, block, block + b - 1, block + b, block + b + 1, 2 * block + b, n - 3 * b})):
+        if b <= pos <= n - b:
+            X[pos:, k % p] += 2.5 if k % 2 == 0 else -2.0
+    info = check({"params": case["params"], "X": X, "as_int64": False, "n_train": None})
+    info["classes"] = list(info.get("classes", [])) + [f"n*p>={(n * p) // 65536}x2^16"]
+    return info
+
+
 FACETS = [
     Facet(name="scores_and_peaks", check=check, strategy=cases,
           rule=("bandwidth from the scorer's minimum size up to +7, n in [2bw,80], admissible min_detection_interval, threshold "
@@ -229,4 +268,9 @@ FACETS = [
           rule=("CUSUM / L2 scorers on float structured data, X and X reversed; scores compared within the prefix-sum error model; "
                 "changepoints compared only under the margin rule; non-trivial = margin satisfied and >= 1 changepoint"),
           n_quick=480, n_thorough=6000, shards_quick=8, shards_thorough=16),
+    Facet(name="long_series", kind="enumerate", enumerate=long_cells, check=check_long, exhaustive=True, time_limit=240,
+          rule=("series with n p between 2^16 and 2^17 (n 16431..131115, p 1..5): seeded unit noise with level shifts at and next to "
+                "multiples of 2^16 / p; every score compared with the definition, changepoints with the peak model; 5 cells (thorough: 20), "
+                "every cell non-trivial"),
+          shards_quick=5, shards_thorough=16, max_samples=1),
 ]
